@@ -67,3 +67,19 @@ Definition status_line_ok (s : bytes) : bool :=
       forallb is_ascii_digit [a; b; c] && negb (Nat.eqb (length reason) 0) && clean_text reason
   | _ => false
   end.
+
+(* ---------- fault: the file vanishes ---------- *)
+
+(* The file is removed after the response object was built (it carries the stat result)
+   and before it is opened.  The handlers that read the file have sent the response
+   start by then; open() raises FileNotFoundError and nothing else is emitted.  HEAD and
+   the range-error answers never open the file. *)
+Definition opens_file (r : recipe) : bool :=
+  match r with
+  | RFile fr => negb (fr_head fr) &&
+                match decide fr with Whole | Single _ _ | Several _ => true | _ => false end
+  | _ => false
+  end.
+
+Definition asgi_vanished (r : recipe) : list event := firstn 1 (fst (asgi_full r None)).
+Definition wsgi_vanished (r : recipe) : list wevent := firstn 1 (fst (wsgi_full r)).
